@@ -124,8 +124,10 @@ def alt_guards(item: dict) -> list:
             else:
                 out.append((g_all([["not", _sel_is(item["sel"], p)] for p in pats]), c["items"]))
     elif item["k"] == "fsm":
+        # the state register has just enough bits for the states (a one-state FSM has none: always in that state)
+        nbits = (len(item["states"]) - 1).bit_length()
         for i, st in enumerate(item["states"]):
-            out.append((_sel_is(item["sel"], i), st["items"]))
+            out.append((_sel_is(item["sel"][:nbits], i), st["items"]))
     return out
 
 
